@@ -65,8 +65,7 @@ See also: fixed, guarded
 
         #  initialize __str__ parameters
         #
-        if options.getopt('display') is None:              # don't override default set by rule
-            options.setopt('display', default=12)
+        options.setopt('display', default=12)              # declare it (keeps a default set by the rule or a value given by the user)
         cls.dp = options.getopt('display')                 # display precision
         cls._dps = 10 ** cls.dp                            # display scaler
         cls._dpr = Fraction(1, cls._dps*2)                 # display rounder
